@@ -12,7 +12,7 @@ def _cli_parts(case):
     """("cli", tls, ops) | ("clit", tls, reconnectable, tymeout, ops) -> (tls, reconnectable, tymeout, ops)"""
     if case[0] == "cli":
         return (case[1], False, 0, case[2])
-    return (case[1], case[2], case[3], case[4])
+    return (case[1], case[2], case[3], case[4])   # clit and clix
 
 
 def _gen_cli_ops(rng, tls, tmo):
@@ -24,16 +24,28 @@ def _gen_cli_ops(rng, tls, tmo):
             ops.append(("reopen",))
         elif r < 0.2:
             ops.append(("close",))
+        elif r < 0.24 and tmo is not None:
+            ops.append(("wind", rng.choice([0, 3, 100])))
+            since = 0
         elif r < 0.45 and tmo is not None:
             d = max(0, tmo - since + rng.choice([-1, 0, 0, 1])) if (tmo and rng.random() < 0.6) else rng.choice([0, 1, 2, tmo or 3, 2 * (tmo or 1) + 1])
             ops.append(("tick", d))
             since = 0 if d >= (tmo or 0) else since + d
+        elif r < 0.6:
+            # what the kernel will say on the current socket: data, graceful EOF, resets and other faults, would-block, partial sends
+            kind = "clienttls" if tls else "client"
+            recvs = T.gen_recvs(rng, kind, rng.randrange(0, 4), fault_p=0.2, flavour=rng.choice(["conn", "wb", None]))
+            if rng.random() < 0.4:
+                recvs.append(("d", b""))          # the far side closes gracefully
+            ops.append(("feed", T.gen_sends(rng, kind, rng.randrange(0, 3), 6, fault_p=0.2, flavour=rng.choice(["conn", "wb"])), recvs))
+        elif r < 0.66:
+            ops.append(("tx", T.gen_bytes(rng, rng.choice([1, 3, 9]))))
         else:
             hs = None
             if tls and rng.random() < 0.8:
-                hs = rng.choice([("ok",), ("f", T.WANT_READ), ("f", T.WANT_READ), ("f", T.WANT_WRITE), ("f", rng.choice(T.conn_fault_codes("clienttls") + [errno.ECONNABORTED])),
+                hs = rng.choice([("ok",), ("ok",), ("f", T.WANT_READ), ("f", T.WANT_READ), ("f", T.WANT_WRITE), ("f", rng.choice(T.conn_fault_codes("clienttls") + [errno.ECONNABORTED])),
                                  ("f", rng.choice(T.ALL_CODES))])
-            ops.append(("connect", rng.choice(RCS), hs))
+            ops.append((rng.choice(["connect", "service", "service"]), rng.choice(RCS + [0, 0, 0]), hs))
     if rng.random() < 0.7:
         ops.append(("close",))
     return ops
@@ -75,8 +87,19 @@ class C11(core.Check):
             ("srv", True, [("conn", 1, [], [], []), ("svc",), ("conn", 1, [], [], [("ok",)]), ("svc",), ("close",)]),
             ("srv", True, [("conn", 1, [], [], [("ok",)]), ("svc",), ("conn", 1, [], [], [("f", W), ("ok",)]), ("svc",), ("svc",), ("close",)]),
             ("srv", True, [("conn", 1, [], [], [("f", errno.ECONNRESET)]), ("conn", 2, [], [("f", errno.EBADF)], [("ok",)]), ("svc",), ("rm", 2), ("reopen",), ("conn", 2, [], [], []), ("svc",), ("close",)]),
+            # graceful EOF / reset seen by the server on some connections, then close
+            ("srv", False, [("conn", 1, [], [("d", b"a"), ("d", b"")], []), ("conn", 2, [], [("f", errno.ECONNRESET)], []), ("conn", 3, [("f", errno.EPIPE)], [], []),
+                            ("svc",), ("tx", 3, b"x"), ("svc",), ("close",)]),
+            ("srv", True, [("conn", 1, [], [("d", b"")], [("ok",)]), ("conn", 2, [], [], [("f", T.WANT_READ)]), ("svc",), ("svc",), ("reopen",), ("close",)]),
             # accepted sockets whose peer reset before accept, and sockets still waiting in .axes when close() comes
             ("srv", False, [("dconn", 1), ("conn", 2, [], [], []), ("svc",), ("close",)]),
+            # the other entry points: Doer wrapper, context managers, serviceReceivesIx / closeIx / closeAllIx, unknown addresses
+            ("srv", True, [("conn", 1, [], [], [("ok",)]), ("conn", 2, [], [], []), ("svc",), ("conn", 1, [], [], [("ok",)]), ("svc",), ("close",), ("reopen",), ("close",)], "doer"),
+            ("srv", False, [("conn", 1, [], [("f", errno.EBADF)], []), ("conn", 2, [], [("d", b"x")], []), ("svc",), ("rxix", 2), ("rxix", 9), ("closeix", 2), ("tx", 7, b"a"), ("rm", 5)], "ctx"),
+            ("srv", False, [("conn", 1, [], [("f", T.EAGAIN), ("f", errno.EIO)], []), ("conn", 2, [], [], []), ("svc",), ("rxix", 1), ("closeall",), ("svc",), ("close",)]),
+            ("clix", True, True, 2, [("connect", 0, ("ok",)), ("feed", [], [("d", b"")]), ("service", 0, None), ("tick", 2), ("service", 0, None)], "ctx"),
+            ("clix", False, False, 0, [("reopen",), ("service", 0, None), ("feed", [], [("d", b"q"), ("d", b"")]), ("service", 0, None), ("reopen",), ("close",)], "doer"),
+            ("clit", False, True, 8, [("connect", errno.EINPROGRESS, None), ("tick", 5), ("wind", 100), ("tick", 7), ("connect", errno.EALREADY, None), ("tick", 1), ("connect", errno.EALREADY, None), ("close",)]),
             ("srv", True, [("conn", 1, [], [], []), ("dconn", 2), ("conn", 3, [], [], [("ok",)]), ("svc",), ("dconn", 3), ("close",)]),
             ("cli", False, [("reopen",), ("connect", errno.EINPROGRESS, None), ("connect", errno.ECONNREFUSED, None), ("connect", 0, None), ("reopen",), ("close",)]),
             ("cli", True, [("connect", 0, ("f", W)), ("connect", 0, ("f", errno.ECONNRESET)), ("connect", 0, ("ok",)), ("reopen",), ("close",)]),
@@ -85,6 +108,11 @@ class C11(core.Check):
             ("clit", False, True, 8, [("reopen",), ("connect", errno.EINPROGRESS, None), ("tick", 8), ("connect", errno.EALREADY, None), ("tick", 8), ("connect", errno.ECONNREFUSED, None), ("connect", 0, None), ("close",)]),
             ("clit", True, True, 2, [("connect", 0, ("f", W)), ("tick", 2), ("connect", 0, ("f", W)), ("tick", 1), ("connect", errno.EINPROGRESS, None), ("tick", 1), ("connect", errno.EALREADY, None), ("close",)]),
             ("clit", False, False, 8, [("connect", errno.EINPROGRESS, None), ("tick", 9), ("connect", errno.EALREADY, None), ("close",)]),
+            # the far side closes gracefully / resets after some data; then the client reopens and closes
+            ("cli", False, [("connect", 0, None), ("feed", [], [("d", b"hi"), ("d", b"")]), ("service", 0, None), ("reopen",), ("connect", 0, None), ("close",)]),
+            ("cli", False, [("connect", 0, None), ("feed", [], [("d", b"")]), ("service", 0, None), ("close",), ("reopen",), ("close",)]),
+            ("clit", True, True, 8, [("connect", 0, ("ok",)), ("tx", b"abc"), ("feed", [("acc", 1), ("f", errno.ECONNRESET)], [("d", b"x"), ("d", b"")]), ("service", 0, None), ("service", 0, None), ("tick", 8), ("service", 0, None), ("close",)]),
+            ("realcli", False, "mute", 8, [("svc",), ("peerfin",), ("io",), ("io",), ("reopen",), ("svc",), ("peerrst",), ("io",), ("io",), ("close",)]),
             ("realcli", False, "hang", 2, [("svc",), ("tick", 2), ("svc",), ("tick", 2), ("svc",), ("close",)]),
             ("realcli", False, "refused", 2, [("svc",), ("tick", 2), ("svc",), ("svc",), ("close",)]),
             ("realcli", True, "mute", 2, [("svc",), ("svc",), ("tick", 2), ("svc",), ("tick", 3), ("svc",), ("close",)]),
@@ -126,32 +154,50 @@ class C11(core.Check):
             ops = []
             for _ in range(rng.randrange(2, 14)):
                 r = rng.random()
-                ops.append(("tick", rng.choice([0, 1, tmo, tmo, tmo + 1])) if r < 0.4 else ("svc",) if r < 0.85 else ("reopen",) if r < 0.93 else ("close",))
+                ops.append(("tick", rng.choice([0, 1, tmo, tmo, tmo + 1])) if r < 0.3 else ("svc",) if r < 0.5 else ("io",) if r < 0.7 else
+                           (rng.choice(["peerfin", "peerfin", "peerrst"]),) if r < 0.8 else ("tx",) if r < 0.85 else ("reopen",) if r < 0.93 else ("close",))
             yield ("realcli", rng.random() < 0.4, rng.choice(["refused", "hang", "mute"]), tmo, ops + [("close",)])
         for _ in range(n):
             if rng.random() < 0.7:
                 tls = rng.random() < 0.55
-                yield ("srv", tls, T.gen_server_ops(rng, tls, "life", tier))
+                ops = T.gen_server_ops(rng, tls, "life", tier)
+                v = rng.random()
+                if v < 0.8:
+                    yield ("srv", tls, ops)
+                else:   # the same server driven through its Doer wrapper / the openServer context manager
+                    yield ("srv", tls, ops, "doer" if v < 0.9 else "ctx")
             else:
                 tls = rng.random() < 0.5
                 if rng.random() < 0.35:
                     yield ("cli", tls, _gen_cli_ops(rng, tls, None))
                 else:   # auto-reconnecting client in virtual tyme: the retry tymer expires before / after accept, mid-handshake ...
                     tmo = rng.choice([0, 1, 2, 8, 8])
-                    yield ("clit", tls, rng.random() < 0.85, tmo, _gen_cli_ops(rng, tls, tmo))
+                    cops = _gen_cli_ops(rng, tls, tmo)
+                    v = rng.random()
+                    if v < 0.8:
+                        yield ("clit", tls, rng.random() < 0.85, tmo, cops)
+                    else:   # through ClientDoer / the openClient context manager
+                        yield ("clix", tls, rng.random() < 0.85, tmo, cops, "doer" if v < 0.9 else "ctx")
 
     def request(self, case):
         if case[0] == "real":
             return ("noop",)
         if case[0] == "srv":
-            return ("server", bool(case[1]), T.request_server(case[2]))
+            ops = list(case[2]) + ([("close",)] if len(case) > 3 and case[3] == "ctx" else [])
+            return ("server", bool(case[1]), T.request_server(ops))
+        if case[0] == "clix":
+            _, tls, recon, tmo, cops, via = case
+            cops = ([("reopen",)] + list(cops) + [("close",)]) if via == "ctx" else cops
+            return self.request(("clit", tls, recon, tmo, cops))
         if case[0] == "realcli":
             return ("noop",)
         tls, recon, tmo, cops = _cli_parts(case)
         ops = []
         for op in cops:
-            if op[0] == "connect":
-                ops.append(("connect", op[1], tuple(op[2]) if op[2] is not None else None))
+            if op[0] in ("connect", "service"):
+                ops.append((op[0], op[1], tuple(op[2]) if op[2] is not None else None))
+            elif op[0] == "feed":
+                ops.append(("feed", [tuple(x) for x in op[1]], [tuple(x) for x in op[2]]))
             else:
                 ops.append(tuple(op))
         return ("cli", bool(tls), bool(recon), tmo, ops)
@@ -160,7 +206,9 @@ class C11(core.Check):
         if case[0] == "real":
             return T.run_real_life(case)
         if case[0] == "srv":
-            return T.run_server((case[1], case[2]))
+            return T.run_server(tuple(case[1:]))
+        if case[0] == "clix":
+            return T.run_client(tuple(case[1:]))
         if case[0] == "realcli":
             return T.run_real_client(case)
         return T.run_client(_cli_parts(case))
@@ -173,6 +221,8 @@ class C11(core.Check):
         return sx.dumps(obs)
 
     def oracle(self, case, obs):
+        if case[0] in ('real', 'realcli') and len(obs) == 2 and obs[0] == "EXC":
+            return ["escaped:" + obs[1]]
         bad = []
         if case[0] == "real":
             for e in obs:
@@ -184,7 +234,8 @@ class C11(core.Check):
             return sorted(set(bad))
         if case[0] == "srv":
             st0, steps = obs
-            for op, (st, snap) in zip(case[2], steps):
+            sops = list(case[2]) + ([("close",)] if len(case) > 3 and case[3] == "ctx" else [])
+            for op, (st, snap) in zip(sops, steps):
                 if op[0] == "close":
                     if st != "ok":
                         bad.append("close-raised")
@@ -204,7 +255,10 @@ class C11(core.Check):
                 if stray:
                     bad.append("client-earlier-socket-open")
             return sorted(set(bad))
-        for op, (st, open_ids, cur, connected) in zip(_cli_parts(case)[3], obs):
+        cops = _cli_parts(case)[3]
+        if case[0] == "clix" and case[5] == "ctx":
+            cops = [("reopen",)] + list(cops) + [("close",)]
+        for op, (st, open_ids, cur, connected, cutoff, nrx, ntx) in zip(cops, obs):
             extra = [i for i in open_ids if i != cur]
             if extra:
                 bad.append("client-earlier-socket-open")
@@ -213,11 +267,13 @@ class C11(core.Check):
         return sorted(set(bad))
 
     def nontrivial(self, case, obs):
+        if case[0] in ('real', 'realcli') and len(obs) == 2 and obs[0] == "EXC":
+            return True
         if case[0] == "real":
             return obs[-2][0] >= 3
         if case[0] == "realcli":
             return obs[-1][1] >= 3
-        if case[0] in ("cli", "clit"):
+        if case[0] in ("cli", "clit", "clix"):
             return len({o[2] for o in obs}) >= 3
         st0, steps = obs
         if not steps:
@@ -231,10 +287,16 @@ class C11(core.Check):
         return nacc >= 2 and interesting
 
     def features(self, case, obs):
+        if case[0] in ('real', 'realcli') and len(obs) == 2 and obs[0] == "EXC":
+            return ["escaped"]
         f = [case[0], "tls" if case[1] else "plain"]
         if case[0] == "realcli":
             return f + ["realcli:" + case[2], "realcli-sockets:%d" % min(8, obs[-1][1])]
-        if case[0] == "clit":
+        if case[0] == "srv" and len(case) > 3:
+            f.append("via:" + case[3])
+        if case[0] == "clix":
+            f.append("via:" + case[5])
+        if case[0] in ("clit", "clix"):
             f.append("reconnectable" if case[2] else "not-reconnectable")
             f.append("tymeout:%d" % case[3])
         if case[0] == "real":
@@ -268,6 +330,14 @@ class C11(core.Check):
         return f
 
     def shrink(self, case):
+        if case[0] == "clix":
+            for c in self.shrink(("clit",) + tuple(case[1:5])):
+                yield ("clix",) + tuple(c[1:]) + (case[5],)
+            return
+        if case[0] == "srv" and len(case) > 3:
+            for c in self.shrink(case[:3]):
+                yield c + (case[3],)
+            return
         if case[0] in ("clit", "realcli"):
             head, ops = case[:4], case[4]
             for i in range(len(ops)):
@@ -292,7 +362,7 @@ class C11(core.Check):
 
     def mutate(self, rng, case):
         out = list(self.shrink(case))[:40]
-        if case[0] in ("srv", "cli"):
+        if case[0] in ("srv", "cli") and len(case) == 3:
             out.append((case[0], not case[1], case[2]))
         return out
 
